@@ -73,7 +73,10 @@ func (k Keeper) UpgradeClient(
 	}
 
 	k.SetClientState(ctx, chainName, newClientState)
-	k.SetClientConsensusState(ctx, chainName, newClientState.GetLatestHeight(), newConsensusState)
+	// a TSS client has no consensus states (its height is always zero, which genesis validation rejects)
+	if newConsensusState.ClientType() != exported.TSS {
+		k.SetClientConsensusState(ctx, chainName, newClientState.GetLatestHeight(), newConsensusState)
+	}
 
 	k.Logger(ctx).Info(
 		"client state upgraded",
@@ -119,7 +122,10 @@ func (k Keeper) ToggleClient(
 	if err := newClientState.Initialize(ctx, k.cdc, k.ClientStore(ctx, chainName), newConsensusState); err != nil {
 		return err
 	}
-	k.SetClientConsensusState(ctx, chainName, newClientState.GetLatestHeight(), newConsensusState)
+	// a TSS client has no consensus states (its height is always zero, which genesis validation rejects)
+	if newConsensusState.ClientType() != exported.TSS {
+		k.SetClientConsensusState(ctx, chainName, newClientState.GetLatestHeight(), newConsensusState)
+	}
 
 	k.Logger(ctx).Info(
 		"client state toggled",
